@@ -450,6 +450,14 @@ impl<'tcx> Ex<'tcx> {
                     let _ = write!(o, ",\"v\":\"{}\"", v);
                 }
             }
+        } else if matches!(ty.kind(), ty::Adt(..)) {
+            // newtype-like constants (e.g. `ColumnSpec(u32)`): scalar ABI, print the bits
+            if let Some(sc) = c.const_.try_eval_scalar(tcx, env) {
+                if let Ok(si) = sc.try_to_scalar_int() {
+                    let v: u128 = si.to_bits(si.size());
+                    let _ = write!(o, ",\"v\":\"{}\"", v);
+                }
+            }
         } else if let Const::Val(ConstValue::Slice { .. }, t) = c.const_ {
             // string literal
             if let ty::Ref(_, inner, _) = t.kind() {
